@@ -607,11 +607,26 @@ func (st *pnState) record(what, gname, username string, mkdir bool) {
 	}
 	f, err := diskwriter.VerifOpenDiskFile(root, username, "webm")
 	simrt.Reenter()
-	if err == nil {
-		f.Close()
-		st.c.Count("probe.recording_created", 1)
-	} else {
-		st.c.Count("probe.recording_refused", 1)
+	// a second recording of the same user in the same millisecond (camera
+	// and screen share): the name is taken, a numbered one is tried
+	f2, err2 := diskwriter.VerifOpenDiskFile(root, username, "webm")
+	simrt.Reenter()
+	opened := 0
+	for _, x := range []struct {
+		f   *os.File
+		err error
+	}{{f, err}, {f2, err2}} {
+		if x.err == nil {
+			x.f.Close()
+			opened++
+			st.c.Count("probe.recording_created", 1)
+		} else {
+			st.c.Count("probe.recording_refused", 1)
+		}
+	}
+	if err == nil && err2 != nil {
+		st.viol("C19.recording-escape", "%s: a second recording of the same user in the same millisecond could not be created (%v) although the first one could: its numbered name is not a file name in the group's directory", what, err2)
+		return
 	}
 	gdir := path.Join("recordings", gname)
 	var created []string
@@ -636,8 +651,8 @@ func (st *pnState) record(what, gname, username string, mkdir bool) {
 	if st.failed {
 		return
 	}
-	if err == nil && len(created) != 1 {
-		st.viol("C19.recording-escape", "%s: openDiskFile succeeded but %d files appeared directly in %s", what, len(created), pnQ(gdir))
+	if len(created) != opened {
+		st.viol("C19.recording-escape", "%s: openDiskFile succeeded %d times but %d files appeared directly in %s", what, opened, len(created), pnQ(gdir))
 		return
 	}
 	// tidy up (keeps the tree small)
